@@ -207,6 +207,19 @@ class C18(Prop):
         detail = {'A': a, 'B': b, 'C_mode': case['cmode']}
         if h_a1 != h_a2:
             return FAIL('same-process:second-compilation-differs', dict(detail, first=h_a1[:16], second=h_a2[:16]))
+        if len(a) % 4 == 0:
+            # ... and on another day: the clock of this process is moved 1 and 400 days ahead for one compilation
+            import time
+            real = time.time
+            for days in (1, 400):
+                time.time = lambda d=days: real() + d * 86400.0
+                try:
+                    h_later = local(a)
+                    h_later_dbg = local(a, debug_filename=True)
+                finally:
+                    time.time = real
+                if h_later != h_a1 or h_later_dbg != h_a3:
+                    return FAIL('output-depends-on-the-date', dict(detail, days_ahead=days))
         if case['cmode'] == 'from-file':
             # one path, rewritten with a text of the same length (two constants exchanged): the result is that of the text
             import re
